@@ -2,8 +2,8 @@
 
 // vh_view: helper process of harness vh_approval (C11).  It lives under
 // cmd/gotelemetry/ because the viewer package is internal to that command.
-// Protocol: one JSON request per line on stdin, one JSON answer per line on
-// stdout.
+// Protocol: one JSON request per line on stdin ({Cfg, Dir, What: files|reports}),
+// one JSON answer per line on stdout.
 package main
 
 import (
@@ -18,12 +18,15 @@ import (
 )
 
 type request struct {
-	Cfg   telemetry.UploadConfig
-	Meta  map[string]string
-	Count []struct {
-		K string
-		V uint64
-	}
+	Cfg  telemetry.UploadConfig
+	Dir  string
+	What string
+}
+
+type answer struct {
+	Files   []view.VerifFileView
+	Reports []view.VerifReportView
+	Err     string
 }
 
 func main() {
@@ -35,13 +38,23 @@ func main() {
 		if err := dec.Decode(&req); err != nil {
 			return
 		}
-		count := map[string]uint64{}
-		for _, kv := range req.Count {
-			count[kv.K] = kv.V
+		ucfg := req.Cfg
+		cfg := config.NewConfig(&ucfg)
+		var ans answer
+		var err error
+		switch req.What {
+		case "files":
+			ans.Files, err = view.VerifFiles(req.Dir, cfg)
+		case "reports":
+			ans.Reports, err = view.VerifReports(req.Dir, cfg)
+		default:
+			err = fmt.Errorf("unknown request %q", req.What)
 		}
-		cfg := req.Cfg
-		res := view.VerifView(config.NewConfig(&cfg), req.Meta, count)
-		b, err := json.Marshal(res)
+		if err != nil {
+			fmt.Fprintln(os.Stderr, err)
+			os.Exit(2)
+		}
+		b, err := json.Marshal(ans)
 		if err != nil {
 			fmt.Fprintln(os.Stderr, err)
 			os.Exit(2)
